@@ -302,6 +302,28 @@ def case_save(rep):
                             "save(): reaction forces in the file differ from the given forces", unit="save:forces", config=("save-forces", ext, fam))
                 if not np.array_equal(back.points, mesh.points) or not np.array_equal(back.cells[0].data, mesh.cells):
                     run.fail("files.save", "format=%s clause=mesh" % ext, "save(): mesh in the file differs")
+                # the documented call with the stress handed over as well: the file stays readable, displacements and forces are
+                # unchanged and the stress point data are P F^T / det F shifted to the points
+                fn2 = os.path.join(d, "result_stress." + ext)
+                solid = items[0]
+                grad_ = solid.evaluate.gradient(res.x)
+                fem.tools.save(field.region, res.x, forces=forces, gradient=grad_, filename=fn2)
+                try:
+                    back2 = meshio.read(fn2)
+                except (Exception, SystemExit) as exc:
+                    run.fail("files.save", "format=%s clause=file-with-stress-readable" % ext,
+                             "save(gradient=...): the written file cannot be read back (%s: %s)" % (type(exc).__name__, str(exc)[:120]))
+                    continue
+                run.compare("files.save", "format=%s clause=displacements[with stress]" % ext, maxabs(back2.point_data["Displacements"] - u), 0.0,
+                            "save(gradient=...): displacements in the file differ from the given field", unit="save:with-stress", config=("save-stress", ext, fam))
+                Fq = res.x.extract()[0]
+                P = np.asarray(grad_[0], float)
+                sig = np.einsum("ik...,jk...->ij...", P, Fq) / np.linalg.det(np.moveaxis(Fq, (0, 1), (-2, -1)))
+                refs = fem.topoints(sig, field.region).reshape(mesh.npoints, 9)
+                gots = np.asarray(back2.point_data["Cauchy Stress"]).reshape(mesh.npoints, -1)
+                run.compare("files.save", "format=%s clause=cauchy-stress-point-data" % ext, maxabs(gots - refs) / max(maxabs(refs), 1e-300) if gots.shape == refs.shape else np.inf, 1e-13,
+                            "save(gradient=...): 'Cauchy Stress' point data are not P F^T / det F shifted to the points (row-major components)",
+                            unit="save:cauchy", config=("save-cauchy", ext, fam))
     return fn
 
 
